@@ -71,6 +71,9 @@ pub fn panic_msg(p: Box<dyn std::any::Any + Send>) -> String {
 }
 
 pub fn quiet_panics() {
+    if std::env::var("VERIF_DEBUG").is_ok() {
+        return;
+    }
     std::panic::set_hook(Box::new(|_| {}));
 }
 
@@ -91,6 +94,8 @@ impl Ctx {
                 Op::Add { id, .. } | Op::Append { id, .. } | Op::Del { id, .. } => {
                     s.insert(*id);
                 }
+                Op::AddMany { items, .. } => s.extend(items.iter().map(|x| x.0)),
+                Op::DelMany { ids, .. } => s.extend(ids.iter().copied()),
                 _ => {}
             }
         }
@@ -303,6 +308,13 @@ fn hash_value(v: &Value) -> u64 {
     h.finish()
 }
 
+pub fn count_fds() -> i64 {
+    std::fs::read_dir("/proc/self/fd").map(|d| d.count() as i64).unwrap_or(-1)
+}
+pub fn count_dir(p: &str) -> i64 {
+    std::fs::read_dir(p).map(|d| d.count() as i64).unwrap_or(0)
+}
+
 pub struct BuildOutcome {
     pub res: Value,
     pub polls: u64,
@@ -383,10 +395,15 @@ pub fn run_history(h: &History, hno: usize, cfg: &RunCfg, out: &mut Vec<Value>) 
         "ids": ctx.ids.iter().map(|i| i.to_string()).collect::<Vec<_>>(),
         "nids": ctx.ids.len() as i64,
         "label": h.label,
+        "mapfull": h.faults.iter().any(|f| f == "mapfull"),
     }));
 
     let mut wtxn: Option<RwTxn> = None;
     let mut before: RawDump = Vec::new();
+    // after an out-of-space error LMDB refuses every further use of the transaction (BadTxn):
+    // the remaining operations of that transaction are skipped and a commit becomes an abort
+    let mut dead = false;
+    let mut last_st: BTreeMap<u16, Value> = BTreeMap::new();
 
     let all_states = |ctx: &mut Ctx, d: &RawDump, metric: &BTreeMap<u16, Metric>, sides: bool| -> Vec<Value> {
         let dec = decode::decode_dump(d, &|i| metric.get(&i).copied());
@@ -401,10 +418,15 @@ pub fn run_history(h: &History, hno: usize, cfg: &RunCfg, out: &mut Vec<Value>) 
         if wtxn.is_none() {
             wtxn = Some(env.write_txn().unwrap());
         }
+        if dead && !matches!(op, Op::Commit | Op::Abort) {
+            continue;
+        }
         match op {
             Op::Commit | Op::Abort => {
                 let w = wtxn.take().unwrap();
-                let is_commit = matches!(op, Op::Commit);
+                let is_commit = matches!(op, Op::Commit) && !dead;
+                dead = false;
+                last_st.clear();
                 let res = if is_commit {
                     match w.commit() {
                         Ok(()) => {
@@ -420,7 +442,7 @@ pub fn run_history(h: &History, hno: usize, cfg: &RunCfg, out: &mut Vec<Value>) 
                 };
                 let rtxn = env.read_txn().unwrap();
                 let after = dump(db, &rtxn);
-                let sts = all_states(&mut ctx, &after, &metric, cfg.sides);
+                let sts = all_states(&mut ctx, &after, &metric, false);
                 let obs: Vec<Value> = if cfg.observe {
                     ctx.idxs.clone().iter().map(|i| observe(&mut ctx, &rtxn, db, *i, metric[i], dims[i])).collect()
                 } else {
@@ -486,6 +508,59 @@ pub fn run_history(h: &History, hno: usize, cfg: &RunCfg, out: &mut Vec<Value>) 
                     Err(p) => json!({"c":"Panic","msg":panic_msg(p)}),
                 };
             }
+            Op::AddMany { items, .. } => {
+                let mut res = json!({"c":"Ok"});
+                let mut toks = Vec::new();
+                for (id, v) in items {
+                    let vf = unbits(v);
+                    let r = catch_unwind(AssertUnwindSafe(|| {
+                        with_metric!(m, D, {
+                            let adb: arroy::Database<D> = db.remap_types();
+                            arroy::Writer::<D>::new(adb, idx, dim).add_item(w, *id, &vf)
+                        })
+                    }));
+                    match r {
+                        Ok(Ok(())) => toks.push(json!([ctx.rank(*id), ctx.tok(&represent(m, &vf))])),
+                        Ok(Err(e)) => {
+                            res = err_class(&e);
+                            break;
+                        }
+                        Err(p) => {
+                            res = json!({"c":"Panic","msg":panic_msg(p)});
+                            break;
+                        }
+                    }
+                }
+                ev["ev"] = json!("AddMany");
+                ev["items"] = json!(toks);
+                ev["res"] = res;
+            }
+            Op::DelMany { ids, .. } => {
+                let mut res = json!({"c":"Ok"});
+                let mut rets = Vec::new();
+                for id in ids {
+                    let r = catch_unwind(AssertUnwindSafe(|| {
+                        with_metric!(m, D, {
+                            let adb: arroy::Database<D> = db.remap_types();
+                            arroy::Writer::<D>::new(adb, idx, dim).del_item(w, *id)
+                        })
+                    }));
+                    match r {
+                        Ok(Ok(b)) => rets.push(json!([ctx.rank(*id), b])),
+                        Ok(Err(e)) => {
+                            res = err_class(&e);
+                            break;
+                        }
+                        Err(p) => {
+                            res = json!({"c":"Panic","msg":panic_msg(p)});
+                            break;
+                        }
+                    }
+                }
+                ev["ev"] = json!("DelMany");
+                ev["dels"] = json!(rets);
+                ev["res"] = res;
+            }
             Op::Clear { .. } => {
                 let r = catch_unwind(AssertUnwindSafe(|| {
                     with_metric!(m, D, {
@@ -536,15 +611,42 @@ pub fn run_history(h: &History, hno: usize, cfg: &RunCfg, out: &mut Vec<Value>) 
                 };
             }
             Op::Build { o, .. } => {
-                let bo = do_build(w, db, idx, m, dim, o, cfg.max_polls);
+                // "$TMP/..." temp dirs live inside the history's scratch directory
+                let mut o = o.clone();
+                if let Some(t) = &o.tmpdir {
+                    if t.starts_with("$TMP") {
+                        let real = t.replace("$TMP", dir.path().to_str().unwrap());
+                        if real.ends_with("afile") && !std::path::Path::new(&real).exists() {
+                            std::fs::write(&real, b"not a directory").unwrap();
+                        }
+                        if real.ends_with("adir") {
+                            std::fs::create_dir_all(&real).unwrap();
+                        }
+                        o.tmpdir = Some(real);
+                    }
+                }
+                let o = &o;
+                let fds_before = count_fds();
+                let tmp_before = o.tmpdir.as_ref().map(|t| count_dir(t)).unwrap_or(-1);
+                let bo = do_build(w, db, idx, m, dim, o, h.max_polls.min(cfg.max_polls));
+                let fds_after = count_fds();
+                let tmp_after = o.tmpdir.as_ref().map(|t| count_dir(t)).unwrap_or(-1);
+                ev["fd_delta"] = json!(fds_after - fds_before);
+                ev["tmp_delta"] = json!(tmp_after - tmp_before);
+                ev["tmp_usable"] = json!(o.tmpdir.as_ref().map(|t| std::path::Path::new(t).is_dir()).unwrap_or(true));
                 ev["ev"] = json!("Build");
                 ev["args"] = json!({"n_trees": o.n_trees.map(|x| x as i64).unwrap_or(0), "split_after": o.split_after.map(|x| x as i64).unwrap_or(0),
                     "mem": o.mem.map(|x| x.min(i32::MAX as usize) as i64).unwrap_or(-1), "threads": rayon::current_num_threads() as i64,
                     "cancel_at": o.cancel_at.map(|x| x.min(i32::MAX as u64) as i64).unwrap_or(-1)});
                 ev["polls"] = json!(bo.polls.min(i32::MAX as u64) as i64);
+                if bo.res["c"] != "Ok" {
+                    // a failed build leaves a half-built forest in the transaction: the caller can only roll back
+                    // (C10); the rest of this transaction is skipped and its commit becomes an abort
+                    dead = true;
+                }
                 if bo.res["c"] == "Ok" {
                     stats.builds_ok += 1;
-                    with_sides = cfg.sides;
+                    with_sides = cfg.sides && h.sides;
                 } else {
                     stats.builds_err += 1;
                     if bo.res["c"] == "Panic" {
@@ -555,11 +657,23 @@ pub fn run_history(h: &History, hno: usize, cfg: &RunCfg, out: &mut Vec<Value>) 
             }
             Op::Search { seed, .. } => {
                 ev["ev"] = json!("Search");
-                with_sides = cfg.sides;
+                with_sides = cfg.sides && h.sides;
                 let m = metric[&idx];
                 ev["q"] = search::search_event(&mut ctx, w, db, idx, m, dim, *seed);
             }
             Op::Commit | Op::Abort => unreachable!(),
+        }
+        if ev["res"]["c"] == "MapFull" || ev["res"]["c"] == "Heed" {
+            // the transaction is unusable from here on: no dump, no observation
+            dead = true;
+            let empty = IndexRaw::default();
+            ev["st"] = last_st.get(&idx).cloned().unwrap_or_else(|| project_index(&mut ctx, &empty, metric[&idx], dim, false));
+            ev["same"] = json!(true);
+            ev["foreign"] = json!(0);
+            ev["dead"] = json!(true);
+            out.push(ev);
+            stats.events += 1;
+            continue;
         }
         let w = wtxn.as_ref().unwrap();
         let after = dump(db, w);
@@ -578,6 +692,13 @@ pub fn run_history(h: &History, hno: usize, cfg: &RunCfg, out: &mut Vec<Value>) 
             }
             stats.state_hashes.insert(hash_value(&st["nodes"]));
         }
+        if matches!(op, Op::Build { .. }) {
+            ev["sides"] = json!(with_sides);
+        }
+        if matches!(op, Op::Search { .. }) {
+            ev["q"]["sides"] = json!(with_sides);
+        }
+        last_st.insert(idx, st.clone());
         ev["st"] = st;
         ev["same"] = json!(same);
         ev["foreign"] = json!(foreign(&ctx, &after));
